@@ -8,6 +8,7 @@ import (
 	"regexp"
 	"sort"
 	"strings"
+	"sync"
 )
 
 // Val is an SMT term together with its sort.
@@ -50,6 +51,9 @@ type VC struct {
 	unbound  []string
 	uncontracted map[string]bool
 	wantClass map[string]*KnownFinding
+	prescanSet map[string]bool
+	sliceMu  sync.Mutex
+	slice    *sliceCache
 }
 
 func newVC(p *Program, key string) *VC {
